@@ -283,6 +283,25 @@ pub fn iter_destroy__unit(w: &mut SpecWorld) {
 pub fn iter_destroy__step(w: &mut SpecWorld) {
     ecs_iter_destroy!(w, |a: &CompA| { if a.0 > 3 { EcsStep::Break } else { EcsStep::Continue } });
 }
+// cfg-decorated parameters: several attributes on one parameter (their conjunction decides) and a disabled filter in each macro
+pub fn iter_mut__cfgstack(w: &mut SpecWorld) -> u32 {
+    let mut s = 0;
+    ecs_iter!(w, |a: &CompA, #[cfg(all())] #[cfg(any())] z: &CompZ, #[cfg(any())] #[cfg(all())] b: &CompBox| { s += a.0; });
+    s
+}
+pub fn iter_borrow__cfg(w: &SpecWorld) -> u32 {
+    let mut s = 0;
+    ecs_iter_borrow!(w, |a: &CompA, #[cfg(all())] #[cfg(any())] z: &CompZ| { s += a.0; });
+    s
+}
+pub fn iter_destroy__cfg(w: &mut SpecWorld) -> u32 {
+    let mut s = 0;
+    ecs_iter_destroy!(w, |a: &CompA, #[cfg(any())] z: &CompZ, #[cfg(all())] #[cfg(any())] e: &Entity<ArchThree>| {
+        s += a.0;
+        if a.0 == 0 { EcsStepDestroy::ContinueDestroy } else { EcsStepDestroy::Continue }
+    });
+    s
+}
 
 // ------------------------------------------------------------------------------------
 // events
